@@ -23,6 +23,7 @@ package v2sim
 
 import (
 	"bytes"
+	"crypto/sha256"
 	"encoding/binary"
 	"errors"
 	"fmt"
@@ -267,9 +268,14 @@ func runPeerLink(r *simkit.Run) {
 		fFlip
 		fTruncate
 		fWrongTerm
+		fV1Remote
+		fNoV2Remote
 	)
-	fault := simkit.Pick(c, "pl.fault", 10, 6, 4, 2, 1)
-	faultNames := []string{"none", "torn_socket_write", "bit_flip_to_peer", "remote_hangup_inside_packet", "wrong_garbage_terminator"}
+	fault := simkit.Pick(c, "pl.fault", 10, 6, 4, 2, 1, 3, 2)
+	if (fault == fV1Remote && l.outbound) || (fault == fNoV2Remote && !l.outbound) {
+		fault = fNone
+	}
+	faultNames := []string{"none", "torn_socket_write", "bit_flip_to_peer", "remote_hangup_inside_packet", "wrong_garbage_terminator", "v1_remote", "remote_without_v2"}
 	for _, n := range faultNames[1:] {
 		r.FaultEnabled("peerlink_" + n)
 	}
@@ -303,6 +309,24 @@ func runPeerLink(r *simkit.Run) {
 	l.conn = simconn.New(&net.TCPAddr{IP: net.IPv4(10, 0, 0, 1), Port: 18555}, &net.TCPAddr{IP: net.IPv4(10, 0, 0, 2), Port: 8333}, 0)
 	if c.Bool(400, "pl.small-reads") {
 		l.conn.SetMaxRead(simkit.Range(c, 1, 40, "pl.maxread"))
+	}
+
+	if fault == fV1Remote || fault == fNoV2Remote {
+		r.Event("peerlink", "outbound=%v net=%s rpv=%d scenario=%s", l.outbound, params.Name, l.remotePV, faultNames[fault])
+		r.Fault("peerlink_" + faultNames[fault])
+		l.p.AssociateConnection(l.conn)
+		synctest.Wait()
+		defer func() {
+			l.p.Disconnect()
+			l.conn.RemoteClose(nil, nil)
+			synctest.Wait()
+		}()
+		if fault == fV1Remote {
+			l.v1Remote()
+		} else {
+			l.noV2Remote()
+		}
+		return
 	}
 
 	// the reference node
@@ -359,17 +383,7 @@ func runPeerLink(r *simkit.Run) {
 	}
 
 	// the application-level handshake inside the encrypted channel
-	me := wire.NewNetAddressIPPort(net.IPv4(10, 0, 0, 2), 8333, wire.SFNodeNetwork|wire.SFNodeP2PV2)
-	you := wire.NewNetAddressIPPort(net.IPv4(10, 0, 0, 1), 18555, wire.SFNodeNetwork)
-	mv := wire.NewMsgVersion(me, you, binary.LittleEndian.Uint64(c.Bytes(8, "pl.nonce"))|1, 100)
-	mv.ProtocolVersion = l.remotePV
-	mv.Services = wire.SFNodeNetwork | wire.SFNodeWitness | wire.SFNodeP2PV2
-	mv.UserAgent = "/refnode:0.1/"
-	mv.Timestamp = time.Unix(time.Now().Unix(), 0)
-	var vb bytes.Buffer
-	if err := mv.BtcEncode(&vb, wire.ProtocolVersion, wire.BaseEncoding); err != nil {
-		panic("harness: version encode: " + err.Error())
-	}
+	vb := bytes.NewBuffer(l.versionPayload())
 	l.conn.Deliver(l.send("version", vb.Bytes()))
 	if c.Bool(300, "pl.wtxidrelay") {
 		l.conn.Deliver(l.send("wtxidrelay", nil)) // a command btcd does not know: skipped
@@ -611,6 +625,181 @@ func runPeerLink(r *simkit.Run) {
 		}
 	}
 	r.State("peerlink out=%v fault=%s queued=%d sent=%d", l.outbound, faultNames[fault], min(len(queued), 3), min(len(sentTo), 3))
+}
+
+// versionPayload is the remote node's version message.
+func (l *plink) versionPayload() []byte {
+	c := l.r.C
+	me := wire.NewNetAddressIPPort(net.IPv4(10, 0, 0, 2), 8333, wire.SFNodeNetwork|wire.SFNodeP2PV2)
+	you := wire.NewNetAddressIPPort(net.IPv4(10, 0, 0, 1), 18555, wire.SFNodeNetwork)
+	mv := wire.NewMsgVersion(me, you, binary.LittleEndian.Uint64(c.Bytes(8, "pl.nonce"))|1, 100)
+	mv.ProtocolVersion = l.remotePV
+	mv.Services = wire.SFNodeNetwork | wire.SFNodeWitness | wire.SFNodeP2PV2
+	mv.UserAgent = "/refnode:0.1/"
+	mv.Timestamp = time.Unix(time.Now().Unix(), 0)
+	var vb bytes.Buffer
+	if err := mv.BtcEncode(&vb, wire.ProtocolVersion, wire.BaseEncoding); err != nil {
+		panic("harness: version encode: " + err.Error())
+	}
+	return vb.Bytes()
+}
+
+// ---- the v1 wire format, framed independently of /repo/wire
+
+func plFrameV1(magic [4]byte, cmd string, payload []byte) []byte {
+	out := make([]byte, 24+len(payload))
+	copy(out[0:4], magic[:])
+	copy(out[4:16], cmd)
+	binary.LittleEndian.PutUint32(out[16:20], uint32(len(payload)))
+	h1 := sha256.Sum256(payload)
+	h2 := sha256.Sum256(h1[:])
+	copy(out[20:24], h2[:4])
+	copy(out[24:], payload)
+	return out
+}
+
+type plV1Msg struct {
+	cmd     string
+	payload []byte
+	ok      bool // magic and checksum right
+}
+
+func plSplitV1(magic [4]byte, b []byte) (msgs []plV1Msg, rest int) {
+	for len(b) >= 24 {
+		n := int(binary.LittleEndian.Uint32(b[16:20]))
+		if n > 1<<25 || len(b) < 24+n {
+			break
+		}
+		p := b[24 : 24+n]
+		h1 := sha256.Sum256(p)
+		h2 := sha256.Sum256(h1[:])
+		msgs = append(msgs, plV1Msg{string(bytes.TrimRight(b[4:16], "\x00")), p, bytes.Equal(b[0:4], magic[:]) && bytes.Equal(b[20:24], h2[:4])})
+		b = b[24+n:]
+	}
+	return msgs, len(b)
+}
+
+// v1Remote: a node that only speaks the v1 protocol connects to a peer that
+// accepts v2: the peer recognises the v1 version message by its first bytes,
+// answers in v1 and the connection works as a v1 connection.
+func (l *plink) v1Remote() {
+	r, c := l.r, l.r.C
+	msg := plFrameV1(l.magic, "version", l.versionPayload())
+	cut := c.Intn(len(msg), "pl.v1-cut")
+	l.conn.Deliver(msg[:cut])
+	synctest.Wait()
+	l.conn.Deliver(msg[cut:])
+	synctest.Wait()
+	l.conn.Deliver(plFrameV1(l.magic, "verack", nil))
+	synctest.Wait()
+	l.mu.Lock()
+	veracks := l.veracks
+	l.mu.Unlock()
+	if veracks != 1 || !l.p.VerAckReceived() || !l.p.Connected() {
+		r.Violate(propID, "peerlink-v1-downgrade", "", "a v1 node sent version and verack to a peer that accepts v2: OnVerAck fired %d times, VerAckReceived=%v Connected=%v", veracks, l.p.VerAckReceived(), l.p.Connected())
+		return
+	}
+	if pv := l.p.ProtocolVersion(); pv != uint32(l.remotePV) {
+		r.Violate(propID, "peerlink-v1-downgrade", "", "negotiated protocol version %d, want %d", pv, l.remotePV)
+	}
+	msgs, rest := plSplitV1(l.magic, l.conn.Written())
+	var cmds []string
+	for _, m := range msgs {
+		if !m.ok {
+			r.Violate(propID, "peerlink-v1-downgrade", "", "the peer answered the v1 node with a message (%q) of wrong magic or checksum", m.cmd)
+		}
+		cmds = append(cmds, m.cmd)
+	}
+	want := "version verack"
+	if l.remotePV >= 70016 {
+		want = "version sendaddrv2 verack"
+	}
+	if got := strings.Join(cmds, " "); got != want || rest != 0 {
+		r.Violate(propID, "peerlink-v1-downgrade", "", "the peer answered the v1 node with %q (+%d stray bytes), want the v1 messages %q", got, rest, want)
+	}
+	nHs := len(msgs)
+	// traffic on the downgraded connection
+	var queued, sentTo []plMsg
+	var pongsDue []uint64
+	for i := simkit.Range(c, 2, 10, "pl.v1-steps"); i > 0; i-- {
+		if c.Bool(500, "pl.v1-dir") {
+			m, wm := plDrawQueued(c)
+			l.p.QueueMessage(wm, nil)
+			queued = append(queued, m)
+		} else {
+			m := plDrawRemote(c, uint32(l.remotePV), &pongsDue)
+			l.conn.Deliver(plFrameV1(l.magic, m.cmd, m.payload))
+			sentTo = append(sentTo, m)
+		}
+		synctest.Wait()
+	}
+	msgs, rest = plSplitV1(l.magic, l.conn.Written())
+	var got []plV1Msg
+	var pongs []uint64
+	for _, m := range msgs[nHs:] {
+		if m.cmd == "pong" && len(m.payload) == 8 {
+			pongs = append(pongs, binary.LittleEndian.Uint64(m.payload))
+			continue
+		}
+		got = append(got, m)
+	}
+	if len(got) != len(queued) || rest != 0 {
+		r.Violate(propID, "peerlink-v1-downgrade", "", "%d messages were queued on the downgraded connection, %d v1 messages (+%d stray bytes) were written", len(queued), len(got), rest)
+	}
+	for i := range queued {
+		if !got[i].ok || got[i].cmd != queued[i].cmd || !bytes.Equal(got[i].payload, queued[i].payload) {
+			r.Violate(propID, "peerlink-v1-downgrade", "", "message %d on the downgraded connection is %q %x (framing ok=%v), queued was %q %x", i, got[i].cmd, clip(got[i].payload, 20), got[i].ok, queued[i].cmd, clip(queued[i].payload, 20))
+		}
+	}
+	if fmt.Sprint(pongs) != fmt.Sprint(pongsDue) {
+		r.Violate(propID, "peerlink-v1-downgrade", "", "pings %v were sent on the downgraded connection, pongs %v came back", pongsDue, pongs)
+	}
+	var wantCbs []plCallback
+	for _, m := range sentTo {
+		wantCbs = append(wantCbs, plCallback{m.cbName, m.cbTok})
+	}
+	l.mu.Lock()
+	cbs := append([]plCallback(nil), l.cbs...)
+	l.mu.Unlock()
+	if fmt.Sprint(cbs) != fmt.Sprint(wantCbs) {
+		r.Violate(propID, "peerlink-v1-downgrade", "", "the v1 node sent %v; the peer's listeners saw %v", wantCbs, cbs)
+	}
+	r.NonTrivial()
+	r.Probe("peerlink-v1-node-served-by-v2-capable-peer")
+	r.State("peerlink v1-remote queued=%d sent=%d", min(len(queued), 3), min(len(sentTo), 3))
+}
+
+// noV2Remote: the peer dials a node that does not know the v2 transport: it
+// takes the 64-byte key for a broken v1 message and hangs up without a byte.
+// The peer has to report that the connection should be retried with v1.
+func (l *plink) noV2Remote() {
+	r, c := l.r, l.r.C
+	if n := l.conn.WrittenLen(); n < 64 {
+		r.Violate(propID, "peerlink-v1-downgrade", "", "an outbound v2 peer wrote %d bytes after connecting, want its 64-byte key (and garbage)", n)
+	}
+	if l.p.ShouldDowngradeToV1() {
+		r.Violate(propID, "peerlink-v1-downgrade", "", "ShouldDowngradeToV1 is true before the remote did anything")
+	}
+	if c.Bool(500, "pl.nov2-reset") {
+		l.conn.RemoteClose(&net.OpError{Op: "read", Net: "tcp", Err: errors.New("connection reset by peer (injected)")}, nil)
+	} else {
+		l.conn.RemoteClose(nil, nil)
+	}
+	synctest.Wait()
+	time.Sleep(time.Second)
+	synctest.Wait()
+	l.mu.Lock()
+	veracks := l.veracks
+	l.mu.Unlock()
+	if !l.p.ShouldDowngradeToV1() {
+		r.Violate(propID, "peerlink-v1-downgrade", "", "the remote hung up on the peer's key without sending a byte, but ShouldDowngradeToV1 is false")
+	}
+	if l.p.Connected() || veracks != 0 {
+		r.Violate(propID, "peerlink-v1-downgrade", "", "the remote hung up during the key exchange: Connected=%v OnVerAck fired %d times", l.p.Connected(), veracks)
+	}
+	r.NonTrivial()
+	r.Probe("peerlink-remote-without-v2-signals-downgrade")
+	r.State("peerlink no-v2-remote")
 }
 
 func (l *plink) recvErrNow() string {
